@@ -81,13 +81,16 @@ type NotiJ struct {
 }
 
 // Op kinds: upd reset remove add sync connect connecterror updatemeta
-// updatesize sub.  Sizes is filled in by the runner (updatesize).
+// updatesize sub subwalk.  Sizes is filled in by the runner (updatesize).
+// subwalk: a STREAM subscriber WITH the initial walk; when Rm is set,
+// Cache.Remove(Rm) runs at the hook point process:before-walk of that RPC.
 type Op struct {
 	K     string           `json:"k"`
 	Now   int64            `json:"now,omitempty"`
 	TS    int64            `json:"ts,omitempty"` // latency cases: timestamp handed to Compute
 	Tgt   string           `json:"tgt,omitempty"`
 	Msg   string           `json:"msg,omitempty"`
+	Rm    string           `json:"rm,omitempty"` // subwalk: target removed between registration and walk
 	N     *NotiJ           `json:"n,omitempty"`
 	Sizes map[string]int64 `json:"sizes,omitempty"`
 }
@@ -457,14 +460,14 @@ func (r *runner) settle() bool {
 	}
 }
 
-func (r *runner) attach(target string) {
+func (r *runner) attach(target string, updatesOnly bool) {
 	ctx := peer.NewContext(context.Background(), &peer.Peer{Addr: &net.TCPAddr{IP: net.IPv4(127, 0, 0, 1), Port: 1 + len(r.subs)}})
 	ctx, cancel := context.WithCancel(ctx)
 	st := &memStream{ctx: ctx, cancel: cancel, reqs: make(chan *pb.SubscribeRequest, 2), done: make(chan struct{})}
 	st.reqs <- &pb.SubscribeRequest{Request: &pb.SubscribeRequest_Subscribe{Subscribe: &pb.SubscriptionList{
 		Prefix:       &pb.Path{Target: target},
 		Mode:         pb.SubscriptionList_STREAM,
-		UpdatesOnly:  true,
+		UpdatesOnly:  updatesOnly,
 		Subscription: []*pb.Subscription{{Path: &pb.Path{}}},
 	}}}
 	r.subs = append(r.subs, st)
@@ -499,6 +502,7 @@ func (r *runner) finish() {
 // running a case against the real cache
 
 type runner struct {
+	pending func() // run once at the next process:before-walk hook
 	c     *cache.Cache
 	srv   *subscribe.Server
 	feed  []NotiJ
@@ -634,7 +638,13 @@ func (r *runner) apply(o *Op) (res ObsJ) {
 		case "updatesize":
 			r.c.UpdateSize()
 		case "sub":
-			r.attach(o.Tgt)
+			r.attach(o.Tgt, true)
+		case "subwalk":
+			if o.Rm != "" {
+				rm := o.Rm
+				r.pending = func() { r.c.Remove(rm) }
+			}
+			r.attach(o.Tgt, false)
 		default:
 			panic("unknown op " + o.K)
 		}
@@ -647,6 +657,7 @@ func (r *runner) apply(o *Op) (res ObsJ) {
 	if !r.hung && !r.settle() {
 		r.hung = true
 	}
+	r.pending = nil // Subscribe returned before the walk (unknown target)
 	res.Feed = r.feed
 	r.feed = nil
 	func() {
@@ -683,6 +694,7 @@ func caseNames(c *Case) []string {
 	}
 	for _, o := range c.Ops {
 		add(o.Tgt)
+		add(o.Rm)
 		if o.N != nil && o.N.Prefix != nil {
 			add(o.N.Prefix.Target)
 		}
@@ -703,6 +715,15 @@ func runCase(c *Case) {
 	cache.Now = func() time.Time { return time.Unix(0, 0) }
 	r.c = cache.New(c.Targets, opts...)
 	r.srv, _ = subscribe.NewServer(r.c)
+	subscribe.VerifHook = func(p string) {
+		if p == "process:before-walk" {
+			if f := r.pending; f != nil {
+				r.pending = nil
+				f()
+			}
+		}
+	}
+	defer func() { subscribe.VerifHook = nil }()
 	r.c.SetClient(func(l *ctree.Leaf) {
 		n, ok := l.Value().(*pb.Notification)
 		if !ok {
@@ -880,6 +901,12 @@ func (t *termer) op(o *Op, names []string) string {
 		return "MUpdateSize " + vh.List(el)
 	case "sub":
 		return "MSub " + t.str(o.Tgt)
+	case "subwalk":
+		rm := "None"
+		if o.Rm != "" {
+			rm = "(Some " + t.str(o.Rm) + ")"
+		}
+		return fmt.Sprintf("MSubWalk %s %s %s", zlit(o.Now), t.str(o.Tgt), rm)
 	}
 	panic("op")
 }
